@@ -62,15 +62,26 @@ type Mut struct {
 	A     int    `json:"a"`
 	B     int    `json:"b"`
 	Abs   bool   `json:"abs,omitempty"` // A is an absolute byte offset: skip when beyond the end (enumeration)
+	Keep  bool   `json:"keep,omitempty"` // whatever the kind, the variant carries the original's id
 	Batch int    `json:"batch,omitempty"`
 	Pos   int    `json:"pos,omitempty"`
 }
 
+// Orph is a two-delivery shape on a fresh valid chain P -> X: first X (or a variant of X
+// carrying X's id) is delivered as an ORPHAN (its parent P withheld), then the variant is
+// delivered together with / after / before P.
+type Orph struct {
+	M     Mut `json:"m"`     // the alteration (always carrying X's id)
+	First int `json:"first"` // 0: the genuine X is the orphan; 1: the variant is
+	Shape int `json:"shape"` // 0: [P, variant]; 1: [variant] then [P, variant]; 2: [P] then [variant]; 3: [variant, P]
+}
+
 type Step struct {
-	Grow  int    `json:"grow"` // ACL records fed to the local list before the step
-	V     Spec   `json:"v"`
-	Cands []Cand `json:"cands"`
-	Muts  []Mut  `json:"muts"`
+	Grow    int    `json:"grow"` // ACL records fed to the local list before the step
+	V       Spec   `json:"v"`
+	Cands   []Cand `json:"cands"`
+	Muts    []Mut  `json:"muts"`
+	Orphans []Orph `json:"orphans,omitempty"`
 }
 
 type Case struct {
@@ -85,6 +96,9 @@ type Case struct {
 }
 
 var mutKinds = []string{"flip", "flip", "flip_rehash", "flip_rehash", "id", "sig", "ident", "field", "nosig", "fake_derived", "trunc"}
+
+// every alteration kind that can keep the original's id
+var orphKinds = []string{"flip", "flip", "sig", "ident", "field", "nosig", "trunc", "fake_derived", "other"}
 
 // genOps draws an ACL history over the unambiguous alphabet {add writer/reader/admin,
 // permission change, remove, re-add}, every op issued by the owner (account 0) and legal
@@ -173,6 +187,19 @@ func genCase(rt *rapid.T) Case {
 				B:     rapid.IntRange(1, 255).Draw(rt, "mb"),
 				Batch: rapid.SampledFrom([]int{0, 0, 0, 1, 2}).Draw(rt, "mbatch"),
 				Pos:   rapid.IntRange(0, 2).Draw(rt, "mpos"),
+			})
+		}
+		no := rapid.IntRange(0, 2).Draw(rt, "norph")
+		for i := 0; i < no; i++ {
+			st.Orphans = append(st.Orphans, Orph{
+				M: Mut{
+					Kind: rapid.SampledFrom(orphKinds).Draw(rt, "ok"),
+					A:    rapid.IntRange(0, 4000).Draw(rt, "oa"),
+					B:    rapid.IntRange(1, 255).Draw(rt, "ob"),
+					Keep: true,
+				},
+				First: rapid.SampledFrom([]int{0, 0, 0, 1}).Draw(rt, "ofirst"),
+				Shape: rapid.IntRange(0, 3).Draw(rt, "oshape"),
 			})
 		}
 		c.Steps = append(c.Steps, st)
@@ -327,6 +354,24 @@ func TestRegReaddHistory(t *testing.T) {
 	vstat.One(t, prop, Case{Seed: 1, N: 3, Ops: ops, Prefix: -1, Steps: []Step{{V: Spec{Author: 1, Acl: 1}}}}, runMustAccept)
 	// (b) list knows records 0..2 when the change is stored, learns the re-add, tree is reopened
 	vstat.One(t, prop, Case{Seed: 1, N: 3, Ops: ops, Prefix: 2, Steps: []Step{{V: Spec{Author: 1, Acl: 1}}, {Grow: 1, V: Spec{Author: 0, Acl: 0}}}}, runMustAccept)
+}
+
+// TestRegOrphanThenVariant: the shape of an independently seeded defect (orphans kept in
+// Tree.unAttached across calls are matched by id only, so a later variant with the same id
+// skips the id and signature check): every id-keeping alteration kind x every delivery shape.
+func TestRegOrphanThenVariant(t *testing.T) {
+	outerT = t
+	c := Case{Seed: 5, N: 3, Prefix: -1, Ops: []aclgen.Op{{Kind: "add", Actor: 0, Target: 1, Perm: aclgen.Writer}}}
+	st := Step{V: Spec{Author: 1, Acl: 1}}
+	for i, k := range orphKinds {
+		for shape := 0; shape < 4; shape++ {
+			for first := 0; first < 2; first++ {
+				st.Orphans = append(st.Orphans, Orph{M: Mut{Kind: k, A: 40 + 7*i, B: 1 + i, Keep: true}, First: first, Shape: shape})
+			}
+		}
+	}
+	c.Steps = []Step{st, {V: Spec{Author: 0, Acl: 0, Snap: true}, Orphans: st.Orphans[:16]}}
+	vstat.One(t, prop, c, run)
 }
 
 // ---- helpers ------------------------------------------------------------------------------
